@@ -165,3 +165,22 @@ package mvs
 //@   modifies heap
 //@   loop over buildList: invariant not-seen-yet: forall k: int :: 0 <= k && k <= rangeindex ==> buildList[k].Path != newVersion.Path
 
+
+// `get` decides between upgrading and downgrading by comparing the requested version with the
+// version SELECTED for the project in the current build list (never with the version the root happens
+// to write down for it, which may be lower than what is selected).
+//@ func (*mvs.querier).resolveVersionQuery
+//@   trusted
+//@   modifies heap, smap
+//@ func pmvs.Upgrade
+//@   modifies heap, smap
+//@ func pmvs.Downgrade
+//@   modifies heap, smap
+//@ func pmvs.ReqList
+//@   modifies heap, smap
+//@ func mvs.newQuerier
+//@   ensures result != nil
+//@ func mvs.get
+//@   requires root != nil
+//@   callsite Compare: assert decides-against-the-selected-version: exists j: int :: 0 <= j && j < len(buildList) && buildList[j].Version == $0
+//@   modifies heap, smap
